@@ -123,12 +123,25 @@ def gen_case(rng, tier, ctx, i):
         return None
     if rng.random() < 0.3 and rec["k"] != "Not":
         rec = {"k": rng.choice(["neg", "Not"]), "id": None, "args": [rec]}
-    return {"recipe": rec}
+    return common.with_twins(rng, {"recipe": rec})
 
 
-def run_case(case, ctx):
+def _run_one(case, ctx):
     m = recipes.fresh(case["recipe"])
     if adapters.is_leaf(m):
         raise monitor.OutOfScope()
     common.domain(m)
     ctx.call("to_ge_polyhedron(True)", m.to_ge_polyhedron, True)
+
+
+def run_case(case, ctx):
+    """the base recipe, then its hostile twins (same ids, bounds/thresholds that collide under the library's hashes)"""
+    for k, rec in enumerate(common.recipes_of(case)):
+        sub = dict(case, recipe=rec)
+        sub.pop("twins", None)
+        if k:
+            ctx.count("count:twin-runs")
+        try:
+            _run_one(sub, ctx)
+        except monitor.OutOfScope:
+            ctx.count("case:out_of_scope" if k == 0 else "twin:out_of_scope")
